@@ -9,6 +9,7 @@ Diagnostics, inferred types (dbtp) and the --llm-define signatures must be ident
 """
 import collections
 import json
+import time
 import os
 
 from . import common as C
@@ -154,7 +155,20 @@ def run(tier, work):
     for which in (0, 1):
         cfg = notation_config(work, which)
         for args in (["t.rb"], ["t.rb", "--llm-define", "--class=VfNot"]):
-            rr = C.confirm_alone(work, {"cfg": cfg, "files": {"t.rb": prog}, "args": args}, runs=1)[0]
+            job = {"cfg": cfg, "files": {"t.rb": prog}, "args": args}
+            for attempt in range(5):
+                # ti's own 500 ms watchdog answers "timeout" on a loaded machine: that is no result, ask again
+                rr = C.confirm_alone(work, job, runs=1)[0]
+                if not rr.get("timeout"):
+                    break
+                time.sleep(3)
+            if rr.get("timeout"):
+                # still none: the in-process worker (no watchdog) analyses the same program with the same configuration
+                wr = C.Runner(work, "worker")
+                try:
+                    rr = wr.run_many([dict(job, timeout=120)])[0]
+                finally:
+                    wr.close()
             if rr.get("exit") != 0 or rr.get("timeout"):
                 raise C.HarnessError("notation program failed: %r" % (rr.get("out") or "")[:200])
             outs[(which, tuple(args))] = (rr.get("out"), cfg)
